@@ -507,6 +507,39 @@ func Merkle(run *core.Run, maxDepth int) (evals, nontriv int64) {
 			corrupt("depth is one more", leaf, b3, uint64(depth+1), uint64(idx), root)
 		}
 	}
+	// path shape at every depth 0..70 (the specification walks `index // 2**i % 2` for i < depth: index bits at or
+	// above the depth are ignored, and for i >= 64 the bit is 0), indices: low patterns, all ones, high bits only
+	for depth := 0; depth <= 70; depth++ {
+		for _, idx := range []uint64{0, 1, 5, 1<<63 | 1, ^uint64(0), 0xaaaaaaaaaaaaaaaa, 1 << 40} {
+			leaf := sha256.Sum256([]byte("path-leaf"))
+			branch := make([][32]byte, depth)
+			val := leaf
+			for d := 0; d < depth; d++ {
+				branch[d] = sha256.Sum256([]byte(fmt.Sprintf("path-sib-%d-%d", depth, d)))
+				bit := uint64(0)
+				if d < 64 {
+					bit = (idx >> uint(d)) & 1
+				}
+				if bit == 1 {
+					val = h2(branch[d], val)
+				} else {
+					val = h2(val, branch[d])
+				}
+			}
+			evals++
+			nontriv++
+			if ok, pm := call(leaf, branch, uint64(depth), idx, val); pm != "" || !ok {
+				rep("true-branch-rejected", fmt.Sprintf("depth %d index %#x (path shape): the true branch is not accepted (%s)", depth, idx, pm), uint64(depth), idx)
+			}
+			for d := 0; d < depth && d < 64; d += 7 {
+				evals++
+				nontriv++
+				if ok, _ := call(leaf, branch, uint64(depth), idx^(1<<uint(d)), val); ok {
+					rep("corrupt-branch-accepted", fmt.Sprintf("depth %d index %#x: accepted with index bit %d flipped", depth, idx, d), uint64(depth), idx)
+				}
+			}
+		}
+	}
 	// the deposit shape: depth 33 (32 + length mix-in), indices on a grid
 	depth := 33
 	for _, idx := range []uint64{0, 1, 2, 3, 1 << 16, 1<<32 - 1, 1 << 32, 1<<32 + 5} {
